@@ -109,24 +109,25 @@ type memTx struct {
 }
 
 type session struct {
-	d    *Driver
-	fq   *chainFeedQuerier
-	w    *world.World
-	r    *world.Run
-	val  world.Account
-	clk  int
-	svc  map[string]quote
-	both *fakeBothan
-	g    *gates
-	sg   *signaller.Signaller
-	sm   *submitter.Submitter
-	pend *sync.Map
-	subs []*sub
-	nsub int
-	mem  []memTx
-	last int // clock of the latest poll
-	down map[string]bool // local prerequisites switched off: "key" | "auth" | "sim"
-	ch   chan submitter.SignalPriceSubmission
+	d       *Driver
+	fq      *chainFeedQuerier
+	feedRot int
+	w       *world.World
+	r       *world.Run
+	val     world.Account
+	clk     int
+	svc     map[string]quote
+	both    *fakeBothan
+	g       *gates
+	sg      *signaller.Signaller
+	sm      *submitter.Submitter
+	pend    *sync.Map
+	subs    []*sub
+	nsub    int
+	mem     []memTx
+	last    int             // clock of the latest poll
+	down    map[string]bool // local prerequisites switched off: "key" | "auth" | "sim"
+	ch      chan submitter.SignalPriceSubmission
 
 	interesting bool
 }
@@ -306,7 +307,11 @@ func (s *session) find(id int) *sub {
 // setFeeds installs the current-feed list (environment: keeper setter, as the end-blocker's periodic update does).
 func (s *session) setFeeds(f tf.M) {
 	var fl []feedstypes.Feed
-	for _, sg := range Sigs {
+	// the position of a signal in the stored list is no part of the model (on chain it follows the power ranking): the
+	// list is written in an order that rotates with every change, so that equal-sized lists come in different orders
+	s.feedRot++
+	order := append(append([]string{}, Sigs[s.feedRot%len(Sigs):]...), Sigs[:s.feedRot%len(Sigs)]...)
+	for _, sg := range order {
 		e := tf.Sub(f, sg)
 		iv, dev := tf.Int(e, "iv", 0), tf.Int(e, "dev", 50)
 		if iv > 0 {
